@@ -33,6 +33,7 @@ type SiteSpec struct {
 	Hits   int
 	Min    int // minimum number of sites expected (anchor guard)
 	Why    string
+	Seen   int
 }
 
 type FuncContract struct {
